@@ -79,10 +79,10 @@ GEN_CFG = {
     "retry": {"Peers": "{1, 2, 3}", "GetCallers": "{1, 2, 3}", "HeadCallers": "{}", "Callers": "{1, 2, 3}",
               "StopAfter": 100, "MaxSteps": 36},
     "head": {"Peers": "{1, 2, 3, 4, 5}", "GetCallers": "{}", "HeadCallers": "{1, 2}", "Callers": "{1, 2}",
-             "Hdrs": "{1, 3, 4}", "HeadOutcomes": '{"hdr", "fail"}', "StopAfter": 100, "MaxPeerEvents": 1,
+             "Hdrs": "{1, 3, 4}", "HeadOutcomes": '{"hdr", "fail", "fail-timeout"}', "StopAfter": 100, "MaxPeerEvents": 1,
              "MinTrustedConn": 4, "MaxSteps": 26},
 }
-ACTIONS = ["Request", "Cancel", "Sched", "Respond", "Poll", "Stop", "PeerConn", "PeerDisc", "PeerArch", "Quiesce"]
+ACTIONS = ["Request", "Cancel", "Sched", "Respond", "PollStep", "Stop", "PeerConn", "PeerDisc", "PeerArch", "Quiesce"]
 
 
 def _owner(clause, ev):
@@ -131,7 +131,7 @@ def run(ck):
     # 1. the design satisfies the monitor, exhaustively
     for name in ([ck.prop] if ck.quick else [ck.prop, "mixed"]):
         cfg = ck.cfg_with("MC_HxClient.cfg", MC_CFG[name], name=f"MC_HxClient_{name}.cfg")
-        req = [a for a in ACTIONS if not (name == "C31" and a.startswith("Peer"))]
+        req = [a for a in ACTIONS if not (name == "C31" and a.startswith("Peer"))] + ([] if name == "C32" else ["Tick"])
         ck.tlc_mc("MC_HxClient", cfg, tag=f"mc_{name}", required_actions=req, timeout=3000)
     # 2. spec -> impl: simulated behaviours replayed, observed events judged by the monitor
     num = 250 if ck.quick else 3000
